@@ -22,7 +22,7 @@ var c02Outcomes = []string{"cacheable", "nocache", "5xx", "abort", "nilresp", "h
 type c02Epoch struct {
 	Outcome string `json:"outcome"`
 	Waiters int    `json:"waiters"`
-	Variant string `json:"variant"` // parked | held_registered | held_registered_purge | late
+	Variant string `json:"variant"` // parked | held_registered | held_registered_purge | late | waiter_client_abort
 }
 
 func pikeGoroutines() []string {
@@ -48,7 +48,6 @@ func c02History(r *hx.Run, w *W, rnd *rand.Rand, hi int, epochs []c02Epoch) {
 	const T, P = 2, 2
 	uri := fmt.Sprintf("/c02/%d/%d", r.Seed, hi)
 	key := "GET c02.example " + uri
-	d := cache.GetDispatcher("c02")
 	var first atomic.Bool    // the next upstream contact is the epoch's fetch
 	var outcome atomic.Value // string
 	var gate atomic.Value    // chan struct{}
@@ -139,11 +138,26 @@ func c02History(r *hx.Run, w *W, rnd *rand.Rand, hi int, epochs []c02Epoch) {
 				r.Inconclusive("C02: waiters did not register")
 			}
 		}
+		var aborted *hx.Result
+		if ep.Variant == "waiter_client_abort" {
+			// one more coalesced client, which gives up (drops its connection) before the fetch ends
+			quitter := hx.NewClient(w.Clock.Now)
+			qdone := make(chan struct{})
+			regBefore := w.Pts.Count("get.registered")
+			go func() { defer close(qdone); aborted = quitter.Do(rq) }()
+			hx.WaitUntil(15*time.Second, func() bool { return w.Pts.Count("get.registered") > regBefore })
+			quitter.Abort()
+			<-qdone
+			time.Sleep(2 * time.Millisecond) // let the server notice the closed connection
+			r.Add("waiter_client_aborts", 1)
+		}
+		_ = aborted
 		if ep.Variant == "held_registered_purge" {
 			cache.RemoveHTTPCache("c02", []byte(key))
 			r.Add("purges_racing_completion", 1)
 		}
 		enterBefore := w.Pts.Count("cacheable.enter") + w.Pts.Count("hfp.enter")
+		savedBefore := w.Pts.Count("cacheable.saved") + w.Pts.Count("hfp.saved")
 		if ep.Outcome == "client_abort" {
 			// the fetcher's client drops its connection while the origin still holds the fetch
 			fetcherClient.HC.Transport.(*http.Transport).CloseIdleConnections()
@@ -177,9 +191,18 @@ func c02History(r *hx.Run, w *W, rnd *rand.Rand, hi int, epochs []c02Epoch) {
 		case <-time.After(20 * time.Second):
 			completed = false
 		}
+		// server-side quiescence: the fetch's completion (Cacheable / HitForPass) has run to its end
+		if completed && !hx.WaitUntil(20*time.Second, func() bool { return w.Pts.Count("cacheable.saved")+w.Pts.Count("hfp.saved") > savedBefore }) {
+			completed = false
+		}
 		w.Pts.SetCustom(nil)
 		cancelF()
-		st := d.VerifEntryState([]byte(key))
+		st, lockFree := entryState("c02", key)
+		if !lockFree {
+			r.Violate("request_never_completed", map[string]string{"outcome": ep.Outcome, "variant": ep.Variant}, "the entry lock is held at quiescence: the fetch's completion is blocked (deadlock between completion and a request)",
+				map[string]interface{}{"origin_inflight": w.Farm.InflightKey(key), "blocked_goroutines": pikeGoroutines(), "trace": trace}, cs)
+			return
+		}
 		tr := map[string]interface{}{"epoch": ei, "spec": ep, "entry_after": fmt.Sprintf("%+v", st)}
 		if !completed {
 			// the watchdog only triggers the inspection; the verdict is the hooked state
@@ -291,7 +314,7 @@ func c02(r *hx.Run) {
 	w := newSimpleWorld(r, hx.SimpleCfg{CacheName: "c02", HitForPass: "2s", Timeout: "200ms"}, 1, true)
 	defer w.Farm.Close()
 	w.Pts = hx.InstallPoints(r.Seed)
-	variants := []string{"parked", "held_registered", "held_registered_purge", "late"}
+	variants := []string{"parked", "held_registered", "held_registered_purge", "late", "waiter_client_abort"}
 	hi := 0
 	reps := r.Pick(2, 8)
 	for rep := 0; rep < reps; rep++ {
